@@ -10,11 +10,14 @@ import (
 	"fmt"
 	"net/http"
 	"os"
+	"reflect"
 	"sort"
 	"strings"
+	"sync"
 	"sync/atomic"
 	"testing"
 	"time"
+	"unsafe"
 
 	"k8s.io/apimachinery/pkg/apis/meta/v1/unstructured"
 	"k8s.io/apimachinery/pkg/runtime"
@@ -55,7 +58,10 @@ type c15Scenario struct {
 	Children []J        `json:"children"` // what the sync hook returns
 	Builds   []c15Build `json:"builds"`
 	Wake     bool       `json:"wake"`
-	Features []string   `json:"features"`
+	// cold-cache wake probes: the handler must wake a parent whose customize answer is not cached
+	ColdFlush bool     `json:"coldFlush"` // (b) after the last sync empty the manager's response cache, then change related objects
+	Parent2   J        `json:"parent2"`   // (a) a second parent of the same controller that is never synced on this manager
+	Features  []string `json:"features"`
 }
 
 var c15Related = []kidSpec{
@@ -69,14 +75,42 @@ var c15HandlerPanics int32
 
 // ---- hook transport ----
 
-type c15HookState struct{ customizeCalls int }
+type c15HookState struct {
+	mu             sync.Mutex
+	customizeCalls int
+	byParent       map[string]int // customize calls per parent name
+}
+
+// c15RulesFor: what the scripted customize hook answers for a parent of this generation
+func (sc *c15Scenario) c15RulesFor(gen int64) []interface{} {
+	rules := sc.Hook.Rules
+	if rs, ok := sc.Hook.ByGen[fmt.Sprint(gen)]; ok {
+		rules = rs
+	}
+	if rules == nil {
+		rules = []interface{}{}
+	}
+	return rules
+}
 
 func (sc *c15Scenario) c15HookFunc(w *cworld, st *c15HookState) vh.HookFunc {
 	return func(url string, hdr http.Header, req map[string]interface{}) (int, map[string]string, []byte, bool) {
 		h := map[string]string{"X-Verif-Seq": fmt.Sprint(len(w.srv.Log()))}
 		if strings.HasSuffix(url, "/customize") {
+			st.mu.Lock()
 			idx := st.customizeCalls
 			st.customizeCalls++
+			if parent, ok := req["parent"].(map[string]interface{}); ok {
+				if md, ok := parent["metadata"].(map[string]interface{}); ok {
+					if n, ok := md["name"].(string); ok {
+						if st.byParent == nil {
+							st.byParent = map[string]int{}
+						}
+						st.byParent[n]++
+					}
+				}
+			}
+			st.mu.Unlock()
 			if idx < len(sc.Hook.Fail) {
 				switch sc.Hook.Fail[idx] {
 				case "500":
@@ -93,20 +127,13 @@ func (sc *c15Scenario) c15HookFunc(w *cworld, st *c15HookState) vh.HookFunc {
 			if sc.Hook.Raw != "" {
 				return 200, h, []byte(sc.Hook.Raw), false
 			}
-			rules := sc.Hook.Rules
+			var gen int64
 			if parent, ok := req["parent"].(map[string]interface{}); ok {
 				if md, ok := parent["metadata"].(map[string]interface{}); ok {
-					if g, ok := md["generation"].(int64); ok {
-						if rs, ok := sc.Hook.ByGen[fmt.Sprint(g)]; ok {
-							rules = rs
-						}
-					}
+					gen, _ = md["generation"].(int64)
 				}
 			}
-			if rules == nil {
-				rules = []interface{}{}
-			}
-			body, _ := k8sjson.Marshal(J{"relatedResources": rules})
+			body, _ := k8sjson.Marshal(J{"relatedResources": sc.c15RulesFor(gen)})
 			return 200, h, body, false
 		}
 		// sync / finalize: report how many related objects arrived
@@ -154,10 +181,20 @@ type c15WakeRec struct {
 	Woken bool
 }
 
+// one cold-cache probe: parent whose answer is not cached, the answer the hook gives for it, the changed object
+type c15ColdRec struct {
+	Parent J
+	Answer interface{}
+	Obj    J
+	Woken  bool
+}
+
 type c15Rec struct {
-	Sc     *c15Scenario
-	Builds [][]c15StepRec
-	Wakes  []c15WakeRec
+	Sc        *c15Scenario
+	Builds    [][]c15StepRec
+	Wakes     []c15WakeRec
+	Cold      []c15ColdRec
+	ColdCalls int // customize calls caused by the cold probes (for the cold parent); -1 = no cold probe ran
 }
 
 // relatedCacheView: what a related informer created during this build will LIST (the frozen views).
@@ -190,7 +227,12 @@ func c15Run(sc *c15Scenario) (*c15Rec, error) {
 	pmd := sc.Parent["metadata"].(map[string]interface{})
 	pns, _ := pmd["namespace"].(string)
 	pname, _ := pmd["name"].(string)
-	out := &c15Rec{Sc: sc}
+	out := &c15Rec{Sc: sc, ColdCalls: -1}
+	p2name := ""
+	if sc.Parent2 != nil {
+		w.srv.Seed(runtime.DeepCopyJSON(sc.Parent2))
+		p2name, _ = sc.Parent2["metadata"].(map[string]interface{})["name"].(string)
+	}
 	atomic.StoreInt32(&c15HandlerPanics, 0)
 	hasNull := false
 	for _, f := range sc.Features {
@@ -226,6 +268,18 @@ func c15Run(sc *c15Scenario) (*c15Rec, error) {
 			switch stp.Kind {
 			case "sync":
 				rec := w.runSync(&sc.Ctl, b, key)
+				if p2name != "" {
+					// the related informer's first events make the handler ask the hook for the un-synced
+					// parent, from another goroutine: those calls are not part of this sync
+					kept := rec.Events[:0]
+					for _, e := range rec.Events {
+						if e.Hook != nil && c15HookParentName(e.Hook.Req) == p2name {
+							continue
+						}
+						kept = append(kept, e)
+					}
+					rec.Events = kept
+				}
 				for k, objs := range view {
 					if _, ok := rec.CacheChildren[k]; !ok {
 						rec.CacheChildren[k] = objs
@@ -292,8 +346,38 @@ func c15Run(sc *c15Scenario) (*c15Rec, error) {
 			}
 		}
 		// does a change of an object in the related map wake the parent? (the real informer handlers)
-		if sc.Wake && bi == len(sc.Builds)-1 && lastDone && lastRelated != nil {
+		last := bi == len(sc.Builds)-1
+		if sc.Wake && last && lastDone && lastRelated != nil {
 			out.Wakes = c15WakeProbe(w, b, key, lastRelated)
+		}
+		// (b) the answer has left the cache (expired / never stored): the handler has to ask again and still wake
+		if sc.ColdFlush && last && lastDone && lastRelated != nil && c15RelatedCount(lastRelated) > 0 && c15FlushCustomizeCache(b) {
+			if lp, err := common.GetObject(b.pc.parentInformer, pns, pname); err == nil {
+				parent := runtime.DeepCopyJSON(lp.Object)
+				gen, _ := parent["metadata"].(map[string]interface{})["generation"].(int64)
+				answer := J{"relatedResources": sc.c15RulesFor(gen)}
+				before := st.parentCalls(pname)
+				for _, o := range c15PickRelated(lastRelated, 2) {
+					woken := c15Touch(w, b, key, o, "999998", 2*time.Second)
+					out.Cold = append(out.Cold, c15ColdRec{Parent: parent, Answer: c15Normalize(answer), Obj: o, Woken: woken})
+				}
+				out.ColdCalls = st.parentCalls(pname) - before
+			}
+		}
+		// (a) a parent that was never synced on this manager: its rules are only known to the hook
+		if p2name != "" && last && lastDone {
+			p2ns, _ := sc.Parent2["metadata"].(map[string]interface{})["namespace"].(string)
+			if lp, err := common.GetObject(b.pc.parentInformer, p2ns, p2name); err == nil {
+				parent := runtime.DeepCopyJSON(lp.Object)
+				gen, _ := parent["metadata"].(map[string]interface{})["generation"].(int64)
+				answer := J{"relatedResources": sc.c15RulesFor(gen)}
+				time.Sleep(5 * time.Millisecond) // the informer's first events have long been handled
+				for _, o := range c15PickCached(view["pods.v1"], p2ns, 3) {
+					woken := c15Touch(w, b, parentKey(sc.Parent2), o, "999997", 400*time.Millisecond)
+					out.Cold = append(out.Cold, c15ColdRec{Parent: parent, Answer: c15Normalize(answer), Obj: o, Woken: woken})
+				}
+				out.ColdCalls = st.parentCalls(p2name)
+			}
 		}
 		if hasNull {
 			// let the related informers deliver their initial add events to the real handlers
@@ -308,8 +392,60 @@ func c15Run(sc *c15Scenario) (*c15Rec, error) {
 	return out, nil
 }
 
-func c15WakeProbe(w *cworld, b *builtPC, key string, related map[string]interface{}) []c15WakeRec {
-	var out []c15WakeRec
+func (st *c15HookState) parentCalls(name string) int {
+	st.mu.Lock()
+	defer st.mu.Unlock()
+	return st.byParent[name]
+}
+
+func c15HookParentName(req interface{}) string {
+	rq, _ := req.(map[string]interface{})
+	p, _ := rq["parent"].(map[string]interface{})
+	md, _ := p["metadata"].(map[string]interface{})
+	n, _ := md["name"].(string)
+	return n
+}
+
+func c15Normalize(v interface{}) interface{} {
+	data, _ := k8sjson.Marshal(v)
+	var out interface{}
+	_ = k8sjson.Unmarshal(data, &out)
+	return out
+}
+
+func c15RelatedCount(related map[string]interface{}) int {
+	n := 0
+	for _, g := range related {
+		if gm, ok := g.(map[string]interface{}); ok {
+			n += len(gm)
+		}
+	}
+	return n
+}
+
+// c15FlushCustomizeCache empties the manager's response cache (what expiry does), through the zcache object
+// inside the unexported field.
+func c15FlushCustomizeCache(b *builtPC) (ok bool) {
+	defer func() {
+		if r := recover(); r != nil {
+			ok = false
+		}
+	}()
+	f := reflect.ValueOf(b.pc.customize).Elem().FieldByName("customizeCache")
+	f = reflect.NewAt(f.Type(), unsafe.Pointer(f.UnsafeAddr())).Elem()
+	inner := f.Elem().FieldByName("cache")
+	inner = reflect.NewAt(inner.Type(), unsafe.Pointer(inner.UnsafeAddr())).Elem()
+	m := inner.MethodByName("Reset")
+	if !m.IsValid() {
+		return false
+	}
+	m.Call(nil)
+	return inner.MethodByName("ItemCount").Call(nil)[0].Int() == 0
+}
+
+// c15PickRelated: up to perGroup objects of every group of a wire-format related map, in a fixed order
+func c15PickRelated(related map[string]interface{}, perGroup int) []J {
+	var out []J
 	gks := make([]string, 0, len(related))
 	for gk := range related {
 		gks = append(gks, gk)
@@ -322,45 +458,76 @@ func c15WakeProbe(w *cworld, b *builtPC, key string, related map[string]interfac
 			names = append(names, n)
 		}
 		sort.Strings(names)
-		if len(names) > 2 {
-			names = names[:2]
+		if len(names) > perGroup {
+			names = names[:perGroup]
 		}
 		for _, n := range names {
-			o, _ := gm[n].(map[string]interface{})
-			if o == nil {
-				continue
+			if o, _ := gm[n].(map[string]interface{}); o != nil {
+				out = append(out, o)
 			}
-			av, _ := o["apiVersion"].(string)
-			kind, _ := o["kind"].(string)
-			deadline := time.Now().Add(3 * time.Second)
-			for w.srv.WatchCount(av, kind) == 0 && time.Now().Before(deadline) {
-				time.Sleep(200 * time.Microsecond)
-			}
-			cur := runtime.DeepCopyJSON(o)
-			md := cur["metadata"].(map[string]interface{})
-			md["resourceVersion"] = "999999"
-			ann, _ := md["annotations"].(map[string]interface{})
-			if ann == nil {
-				ann = map[string]interface{}{}
-			}
-			ann["touched"] = "yes"
-			md["annotations"] = ann
-			b.queue.Reset()
-			w.srv.Emit("MODIFIED", cur)
-			woken := false
-			deadline = time.Now().Add(2 * time.Second)
-			for !woken && time.Now().Before(deadline) {
-				for _, op := range b.queue.Snapshot() {
-					if op.Op == "Add" && op.Key == key {
-						woken = true
-					}
-				}
-				if !woken {
-					time.Sleep(200 * time.Microsecond)
-				}
-			}
-			out = append(out, c15WakeRec{Obj: gk + " " + n, Woken: woken})
 		}
+	}
+	return out
+}
+
+// c15PickCached: up to n cached objects, those of the parent's namespace first
+func c15PickCached(objs []map[string]interface{}, ns string, n int) []J {
+	var first, rest []J
+	for _, o := range objs {
+		md, _ := o["metadata"].(map[string]interface{})
+		ons, _ := md["namespace"].(string)
+		if ns == "" || ons == ns {
+			first = append(first, o)
+		} else {
+			rest = append(rest, o)
+		}
+	}
+	if len(first) > n-1 && len(rest) > 0 {
+		first = first[:n-1] // keep room for one object the parent must not be woken by
+	}
+	out := append(first, rest...)
+	if len(out) > n {
+		out = out[:n]
+	}
+	return out
+}
+
+// c15Touch sends a MODIFIED event for o through the watch and waits until the real handlers enqueue key
+func c15Touch(w *cworld, b *builtPC, key string, o J, rv string, timeout time.Duration) bool {
+	av, _ := o["apiVersion"].(string)
+	kind, _ := o["kind"].(string)
+	deadline := time.Now().Add(3 * time.Second)
+	for w.srv.WatchCount(av, kind) == 0 && time.Now().Before(deadline) {
+		time.Sleep(200 * time.Microsecond)
+	}
+	cur := runtime.DeepCopyJSON(o)
+	md := cur["metadata"].(map[string]interface{})
+	md["resourceVersion"] = rv
+	ann, _ := md["annotations"].(map[string]interface{})
+	if ann == nil {
+		ann = map[string]interface{}{}
+	}
+	ann["touched"] = rv
+	md["annotations"] = ann
+	b.queue.Reset()
+	w.srv.Emit("MODIFIED", cur)
+	deadline = time.Now().Add(timeout)
+	for time.Now().Before(deadline) {
+		for _, op := range b.queue.Snapshot() {
+			if op.Op == "Add" && op.Key == key {
+				return true
+			}
+		}
+		time.Sleep(200 * time.Microsecond)
+	}
+	return false
+}
+
+func c15WakeProbe(w *cworld, b *builtPC, key string, related map[string]interface{}) []c15WakeRec {
+	var out []c15WakeRec
+	for _, o := range c15PickRelated(related, 2) {
+		woken := c15Touch(w, b, key, o, "999999", 2*time.Second)
+		out = append(out, c15WakeRec{Obj: objKey(o), Woken: woken})
 	}
 	return out
 }
@@ -416,8 +583,13 @@ func c15CoqCase(c *c15Rec) string {
 	for _, wk := range c.Wakes {
 		wakes = append(wakes, fmt.Sprintf("(%s, %s)", vh.MustCoqString(wk.Obj), vh.CoqBool(wk.Woken)))
 	}
-	return fmt.Sprintf("mkC15 %s [%s] [%s] %s", coqCfg(&c.Sc.Ctl), strings.Join(builds, ";\n "), strings.Join(wakes, "; "),
-		vh.CoqStringList(c.Sc.Features))
+	cold := []string{}
+	for _, cr := range c.Cold {
+		cold = append(cold, fmt.Sprintf("(mkCold %s %s %s %s)", vh.MustCoqJSON(map[string]interface{}(cr.Parent)), vh.MustCoqJSON(cr.Answer),
+			vh.MustCoqJSON(map[string]interface{}(cr.Obj)), vh.CoqBool(cr.Woken)))
+	}
+	return fmt.Sprintf("mkC15 %s [%s] [%s] [%s] %s %s", coqCfg(&c.Sc.Ctl), strings.Join(builds, ";\n "), strings.Join(wakes, "; "),
+		strings.Join(cold, ";\n "), vh.CoqZ(int64(c.ColdCalls)), vh.CoqStringList(c.Sc.Features))
 }
 
 // c15Outcome: one word per step, for the replay file and the signature
@@ -735,7 +907,74 @@ func (g *c15Gen) famRules(i int, seed uint64, hostile bool) *c15Scenario {
 	} else {
 		sc.Builds = []c15Build{{Steps: c15Syncs(2 + g.r.Intn(2))}}
 		sc.Wake = true
+		sc.ColdFlush = sc.Hook.Raw == ""
 	}
+	return sc
+}
+
+// a rule over pods only (one related informer: the handler's calls for an un-synced parent are sequential)
+func (g *c15Gen) podsRule(namespaced bool) (J, string) {
+	ru := J{"apiVersion": "v1", "resource": "pods"}
+	switch g.r.Intn(10) {
+	case 0, 1:
+		return ru, "select-all"
+	case 2, 3:
+		sel, f := g.selector()
+		ru["labelSelector"] = sel
+		return ru, "labels-" + f
+	case 4, 5:
+		ru["names"] = A{"a", g.r.Pick([]string{"b", "c"})}
+		return ru, "names-only"
+	case 6:
+		ns := "ns1"
+		if !namespaced {
+			ns = g.r.Pick(c15Namespaces)
+		}
+		ru["namespace"] = ns
+		return ru, "namespace-only"
+	case 7:
+		ns := "ns1"
+		if !namespaced {
+			ns = g.r.Pick(c15Namespaces)
+		}
+		ru["namespace"] = ns
+		ru["names"] = A{"a", "b"}
+		return ru, "namespace-and-names"
+	case 8:
+		ru["namespace"] = "ns2"
+		return ru, "other-namespace"
+	}
+	ru["labelSelector"] = J{}
+	ru["names"] = A{"a"}
+	return ru, "both-styles"
+}
+
+// unsynced: a second parent of the same controller is never synced on this manager; a change of an object its
+// rules select must still wake it (the handler asks the hook itself, once)
+func (g *c15Gen) famUnsynced(i int, seed uint64) *c15Scenario {
+	sc := g.base(i, seed, "unsynced")
+	g1 := sc.Parent["metadata"].(J)["generation"].(int64)
+	g2 := g1 + 5
+	p2 := runtime.DeepCopyJSON(sc.Parent)
+	md2 := p2["metadata"].(map[string]interface{})
+	md2["name"] = "p2"
+	md2["generation"] = g2
+	sc.Parent2 = p2
+	r1 := J{"apiVersion": "v1", "resource": "pods"}
+	if g.r.Bool() {
+		r1["names"] = A{"a"}
+	}
+	var rs2 []interface{}
+	n := 1 + g.r.Intn(2)
+	for j := 0; j < n; j++ {
+		ru, f := g.podsRule(sc.Ctl.ParentNamespaced)
+		rs2 = append(rs2, ru)
+		sc.Features = append(sc.Features, "rule-"+f)
+	}
+	sc.Hook.ByGen = map[string][]interface{}{fmt.Sprint(g1): {r1}, fmt.Sprint(g2): rs2}
+	sc.Builds = []c15Build{{Steps: c15Syncs(1 + g.r.Intn(2))}}
+	sc.Wake = true
+	sc.Features = append(sc.Features, "unsynced-parent")
 	return sc
 }
 
@@ -797,6 +1036,7 @@ func (g *c15Gen) famRebuild(i int, seed uint64) *c15Scenario {
 	}
 	sc.Builds = []c15Build{{Steps: c15Syncs(2)}, {BumpGeneration: true, Steps: c15Syncs(2)}}
 	sc.Wake = true
+	sc.ColdFlush = true
 	sc.Features = append(sc.Features, "rebuild-after-edit")
 	return sc
 }
@@ -832,6 +1072,7 @@ func c15Corpus() []*c15Scenario {
 		sc.Hook.Rules = rules
 		sc.Builds = []c15Build{{Steps: c15Syncs(2)}}
 		sc.Wake = true
+		sc.ColdFlush = true
 		out = append(out, sc)
 		return sc
 	}
@@ -860,9 +1101,24 @@ func c15Corpus() []*c15Scenario {
 		mk("null-rule-behind-matching-rule", nsd, []interface{}{pods(J{"labelSelector": J{}}), nil, pods(J{"names": A{"a"}})})
 		mk("no-rules", nsd, []interface{}{})
 	}
+	// a parent that is never synced on the manager: names-only / labels rules, both parent scopes
+	for _, nsd := range []bool{true, false} {
+		for _, r2 := range []J{pods(J{"names": A{"a"}}), pods(J{"labelSelector": J{"matchLabels": J{"tier": "x"}}})} {
+			sc := mk("unsynced-parent", nsd, nil)
+			sc.ColdFlush = false
+			g1 := sc.Parent["metadata"].(J)["generation"].(int64)
+			p2 := runtime.DeepCopyJSON(sc.Parent)
+			p2["metadata"].(map[string]interface{})["name"] = "p2"
+			p2["metadata"].(map[string]interface{})["generation"] = g1 + 5
+			sc.Parent2 = p2
+			sc.Hook.ByGen = map[string][]interface{}{fmt.Sprint(g1): {pods(nil)}, fmt.Sprint(g1 + 5): {r2}}
+			sc.Features = append(sc.Features, "unsynced-parent")
+		}
+	}
 	// generation change on one manager
 	sc := mk("generation-change", true, nil)
 	sc.Wake = false
+	sc.ColdFlush = false
 	g0 := sc.Parent["metadata"].(J)["generation"].(int64)
 	sc.Hook.ByGen = map[string][]interface{}{
 		fmt.Sprint(g0):     {pods(J{"names": A{"a"}})},
@@ -887,8 +1143,10 @@ func c15Generate(seed uint64, n int, adv bool) []*c15Scenario {
 		r, s := root.Fork()
 		g := &c15Gen{r: r}
 		var sc *c15Scenario
-		x := r.Intn(12)
+		x := r.Intn(13)
 		switch {
+		case x == 12:
+			sc = g.famUnsynced(i, s)
 		case adv || x < 2:
 			sc = g.famRules(i, s, true)
 		case x < 7:
@@ -907,6 +1165,14 @@ func c15Generate(seed uint64, n int, adv bool) []*c15Scenario {
 	}
 	if n > 0 && len(out) > n {
 		out = out[:n]
+	}
+	return out
+}
+
+func c15ColdSummary(c *c15Rec) []string {
+	var out []string
+	for _, cr := range c.Cold {
+		out = append(out, fmt.Sprintf("%s/%v woken=%v", objKey(cr.Obj), cr.Parent["metadata"].(map[string]interface{})["name"], cr.Woken))
 	}
 	return out
 }
@@ -989,7 +1255,7 @@ func TestVerif_C15(t *testing.T) {
 		}
 		id := fmt.Sprintf("s%d", i)
 		outcome := c15Outcome(rec)
-		replay := J{"scenario": sc, "features": sc.Features, "outcome": outcome, "wakes": rec.Wakes}
+		replay := J{"scenario": sc, "features": sc.Features, "outcome": outcome, "wakes": rec.Wakes, "coldCalls": rec.ColdCalls, "cold": c15ColdSummary(rec)}
 		if err := w.Add(id, c15CoqCase(rec), "C15_check", replay); err != nil {
 			t.Fatal(err)
 		}
@@ -1004,6 +1270,21 @@ func TestVerif_C15(t *testing.T) {
 				if !strings.Contains(l, "related=0") || strings.Contains(l, ":err") || strings.Contains(l, ":panic") {
 					nontrivial = true
 				}
+			}
+		}
+		if len(rec.Cold) > 0 {
+			w.Count("cold-cache-probe")
+			if sc.Parent2 != nil {
+				w.Count("cold-cache-probe-unsynced-parent")
+			} else {
+				w.Count("cold-cache-probe-flushed")
+			}
+		}
+		for _, cr := range rec.Cold {
+			if cr.Woken {
+				w.Count("cold-wake-observed")
+			} else {
+				w.Count("cold-wake-absent")
 			}
 		}
 		for _, wk := range rec.Wakes {
